@@ -11,9 +11,17 @@
 
   `legacyNorm` / `legacyNormBytes` / `hasLegacyLeaf` / `NoLegacyLeaf` are defined in
   Lemmas/CodecLemmas.lean (rewrite of #6.24 to #6.201 at envelope leaf positions only).
-  The tree-level theorems need no codec law.  At the byte level `CodecLaws`
-  (Lemmas/CodecLaws.lean) is an explicit hypothesis wherever it is used (only `enc_dec`
-  is used in this file: what decodes re-encodes to the bytes it was read from).
+  The tree-level theorems need no codec law.  At the byte level the second dCBOR law
+  ("what decodes re-encodes to the bytes it was read from") is needed.  It is FALSE as a
+  universal statement about the model codec, which mirrors `dcbor` 0.17.1 (`not_codecLaws`
+  below: `fa 4f 00 00 01`, the f32 2147483904.0, is accepted and read as the integer
+  2147483904; the Rust crate does the same).  Hence
+  * the byte-level theorems take the law *at the input concerned* (`EncDecAt b`, an explicit
+    hypothesis, satisfiable: see the example after `decode_unique_bytes`);
+  * the unrestricted byte-level statement `decode_exact_full_statement` is refuted on a
+    concrete witness (`decode_exact_full_statement_false`): the envelope decoder accepts
+    `d8c8 d8c9 fa4f000001` and re-encodes it as `d8c8 d8c9 1a80000100`.  This is a genuine
+    finding about the implementation (cause: `validate_canonical_f32/f64` in `dcbor`).
 -/
 import EnvVerif.Lemmas.CodecLemmas
 namespace EnvVerif
@@ -79,45 +87,77 @@ theorem decode_canonical (b : Bytes) (e : Env) (hd : decode h b = .ok e) :
     encode e = legacyNormBytes b ∧ Inv h e ∧ EncShape e := by
   unfold decode at hd
   unfold legacyNormBytes
-  split at hd
-  · rename_i c hc
+  cases hc : Cbor.dec b with
+  | ok c =>
+    rw [hc] at hd
     obtain ⟨h1, h2⟩ := envOfTaggedCbor_canonical h c e hd
     exact ⟨by simp only [encode, h1], h2⟩
-  · cases hd
+  | error x => rw [hc] at hd; cases hd
 
 /-- the same with the tree made explicit -/
 theorem decode_canonical_tree (b : Bytes) (e : Env) (hd : decode h b = .ok e) :
     ∃ c, Cbor.dec b = .ok c ∧ envOfTaggedCbor h c = .ok e ∧ encode e = (legacyNorm c).enc := by
   unfold decode at hd
-  split at hd
-  · rename_i c hc
+  cases hc : Cbor.dec b with
+  | ok c =>
+    rw [hc] at hd
     exact ⟨c, rfl, hd, by simp only [encode, (envOfTaggedCbor_canonical h c e hd).1]⟩
-  · cases hd
+  | error x => rw [hc] at hd; cases hd
 
 /-- C06: without the legacy tag, the re-encoding is exactly the input byte string -/
-theorem decode_exact (L : CodecLaws) (b : Bytes) (e : Env) (hd : decode h b = .ok e)
+theorem decode_exact (b : Bytes) (L : EncDecAt b) (e : Env) (hd : decode h b = .ok e)
     (hl : NoLegacyLeaf b) : encode e = b := by
   rw [(decode_canonical h b e hd).1, legacyNormBytes_of_no_legacy L hl]
 
 /-- ... and then decoding the re-encoding gives the same envelope again -/
-theorem decode_reencode (L : CodecLaws) (b : Bytes) (e : Env) (hd : decode h b = .ok e)
+theorem decode_reencode (b : Bytes) (L : EncDecAt b) (e : Env) (hd : decode h b = .ok e)
     (hl : NoLegacyLeaf b) : decode h (encode e) = .ok e := by
-  rw [decode_exact h L b e hd hl, hd]
+  rw [decode_exact h b L e hd hl, hd]
 
 /-- two accepted byte strings without the legacy tag that give the same envelope are the
 same byte string: the decoder accepts exactly one serialisation per envelope -/
-theorem decode_unique_bytes (L : CodecLaws) (b₁ b₂ : Bytes) (e : Env)
+theorem decode_unique_bytes (b₁ b₂ : Bytes) (L₁ : EncDecAt b₁) (L₂ : EncDecAt b₂) (e : Env)
     (h₁ : decode h b₁ = .ok e) (h₂ : decode h b₂ = .ok e) (l₁ : NoLegacyLeaf b₁)
     (l₂ : NoLegacyLeaf b₂) : b₁ = b₂ := by
-  rw [← decode_exact h L b₁ e h₁ l₁, ← decode_exact h L b₂ e h₂ l₂]
+  rw [← decode_exact h b₁ L₁ e h₁ l₁, ← decode_exact h b₂ L₂ e h₂ l₂]
+
+/-- the unrestricted form of `decode_exact` (no codec-law hypothesis) -/
+def decode_exact_full_statement : Prop :=
+  ∀ (h : Hash) (b : Bytes) (e : Env), decode h b = .ok e → NoLegacyLeaf b → encode e = b
+
+set_option maxRecDepth 100000 in
+/-- FINDING: the unrestricted form is false.  `#6.200(#6.201(<f32 2147483904.0>))` is
+accepted (the dCBOR layer reads the float as the integer 2147483904 instead of rejecting
+it as non-canonical) and re-encodes as `#6.200(#6.201(2147483904))`, other bytes. -/
+theorem decode_exact_full_statement_false : ¬ decode_exact_full_statement := by
+  intro hf
+  have h1 := hf ⟨fun _ => ⟨0⟩⟩ [0xd8, 0xc8, 0xd8, 0xc9, 0xfa, 0x4f, 0x00, 0x00, 0x01]
+    (.leaf (.uint 2147483904) ⟨0⟩) (by rfl)
+    (by
+      intro c hc
+      have : Cbor.dec [0xd8, 0xc8, 0xd8, 0xc9, 0xfa, 0x4f, 0x00, 0x00, 0x01] =
+          .ok (.tagged 200 (.tagged 201 (.uint 2147483904))) := by rfl
+      rw [this] at hc
+      injection hc with hc
+      subst hc
+      rfl)
+  exact absurd h1 (by decide)
+
+set_option maxRecDepth 100000 in
+/-- FINDING: the second codec law fails for the model codec (and for `dcbor` 0.17.1), so
+`CodecLaws` as a whole is not satisfiable by it -/
+theorem not_codecLaws : ¬ CodecLaws := by
+  intro L
+  have h1 := (L.enc_dec [0xfa, 0x4f, 0x00, 0x00, 0x01] (.uint 2147483904) (by rfl)).1
+  exact absurd h1 (by decide)
 
 /- the hypotheses of `decode_exact` are satisfiable: the 172-byte encoding of the sample
 envelope (node, wrapped, assertion, known value, leaf, elided, encrypted, compressed) -/
 set_option maxRecDepth 100000 in
 example : decode CodecEx.toyH (encode CodecEx.sample) = .ok CodecEx.sample ∧
-    NoLegacyLeaf (encode CodecEx.sample) := by
+    NoLegacyLeaf (encode CodecEx.sample) ∧ EncDecAt (encode CodecEx.sample) := by
   have hdec : Cbor.dec (encode CodecEx.sample) = .ok (taggedCborOf CodecEx.sample) := by rfl
-  refine ⟨?_, ?_⟩
+  refine ⟨?_, ?_, ?_⟩
   · simp only [decode, hdec]
     simp only [taggedCborOf, envOfTaggedCbor, beq_self_eq_true, if_true]
     exact envOfCbor_cborOf_aux _ _ CodecEx.sample_wf CodecEx.sample_canon CodecEx.sample_encShape
@@ -126,6 +166,11 @@ example : decode CodecEx.toyH (encode CodecEx.sample) = .ok CodecEx.sample ∧
     injection hc with hc
     subst hc
     rfl
+  · intro c hc
+    rw [hdec] at hc
+    injection hc with hc
+    subst hc
+    exact ⟨rfl, taggedCborOf_valid CodecEx.sample_encodable CodecEx.sample_encShape⟩
 
 /- the alias: `#6.200(#6.24("a"))` is accepted and re-encodes as `#6.200(#6.201("a"))` -/
 example : decode CodecEx.toyH [0xd8, 0xc8, 0xd8, 0x18, 0x61, 0x61] = .ok CodecEx.sLeaf ∧
@@ -139,7 +184,7 @@ theorem reject_node_arity (xs : List Cbor) (hx : xs.length < 2) :
   match xs, hx with
   | [], _ => exact envOfCbor_array_nil h
   | [x], _ => exact envOfCbor_array_one h x
-  | _ :: _ :: _, hx => simp at hx
+  | _ :: _ :: _, hx => simp only [List.length_cons] at hx; omega
 
 /-- a non-assertion in an assertion slot: some element after the subject decodes to an
 envelope that is neither an assertion nor obscured (nor a node over one of those) -/
@@ -400,10 +445,10 @@ theorem reject_cbor_error (b : Bytes) (x : Cbor.DecErr) (hb : Cbor.dec b = .erro
 
 /-- non-deterministic CBOR, part 2 (from the codec law): a byte string that is not *the*
 encoding of a valid dCBOR tree is refused -/
-theorem reject_noncanonical_cbor (L : CodecLaws) (b : Bytes)
-    (hb : ∀ c, c.Valid → c.enc ≠ b) : ∃ msg, decode h b = .err msg := by
+theorem reject_noncanonical_cbor (b : Bytes) (L : EncDecAt b)
+    (hb : ∀ c : Cbor, c.Valid → c.enc ≠ b) : ∃ msg, decode h b = .err msg := by
   cases hd : Cbor.dec b with
-  | ok c => exact absurd (L.enc_dec b c hd).1 (hb c (L.enc_dec b c hd).2)
+  | ok c => exact absurd (L c hd).1 (hb c (L c hd).2)
   | error x => exact ⟨_, reject_cbor_error h b x hd⟩
 
 /- instances on the model codec: a non-shortest head, an indefinite-length array, a map
@@ -448,11 +493,11 @@ theorem decode_total (b : Bytes) :
   | panic s => exact absurd hd (decode_no_panic h b s)
 
 /-- ... and exactly that byte string when the legacy tag does not occur -/
-theorem decode_total_exact (L : CodecLaws) (b : Bytes) (hl : NoLegacyLeaf b) :
+theorem decode_total_exact (b : Bytes) (L : EncDecAt b) (hl : NoLegacyLeaf b) :
     (∃ msg, decode h b = .err msg) ∨ (∃ e, decode h b = .ok e ∧ encode e = b ∧ Inv h e) := by
   rcases decode_total h b with hm | ⟨e, hd, _, hi, _⟩
   · exact Or.inl hm
-  · exact Or.inr ⟨e, hd, decode_exact h L b e hd hl, hi⟩
+  · exact Or.inr ⟨e, hd, decode_exact h b L e hd hl, hi⟩
 
 end
 end EnvVerif
